@@ -251,7 +251,7 @@ func init() {
 		rs.Rules["R4"] = "replies: the stream travels unchanged with the bytes along the write chain (shared with C16 R2)"
 		rs.Rules["R5"] = "heap maintenance: heap.Fix/Push after every change of a stream buffer's length"
 		rs.MinInstances["R4"] = 4
-		rs.MinInstances["R5"] = 3
+		rs.MinInstances["R5"] = 1
 		rs.Explanation = strings.Replace(rs.Explanation, "R4 replies: see C16 R2/R3 (answer's stream = request's stream, passed unchanged to WriteStream). ", "stream buffers are created over freshly allocated storage (never over the caller's reused read buffer); R4 along the write chain the stream number travels unchanged together with the bytes (shared clause with C16 R2); R5 wherever the code fixes a stream buffer's heap position after reading from / writing to it, it does so on every path (a conditional fix leaves the longest-first heap stale). ", 1)
 	}
 }
@@ -347,13 +347,26 @@ func (c *Ctx) c19ReadStream(rs *ssa.Function) {
 		// helper drains older buffered data first: it looks up streamMap[stream] under the lock
 		g := flow.StaticCallee(call)
 		looksUp := false
-		flow.Instrs(g, func(x ssa.Instruction) {
-			if lk, ok := x.(*ssa.Lookup); ok {
-				if _, fld, _, ok := flow.FieldOf(lk.X); ok && strings.Contains(fld, "streamMap") {
-					looksUp = true
-				}
+		var scan func(h *ssa.Function, d int)
+		scan = func(h *ssa.Function, d int) {
+			if h == nil || h.Blocks == nil || d > 2 {
+				return
 			}
-		})
+			flow.Instrs(h, func(x ssa.Instruction) {
+				if lk, ok := x.(*ssa.Lookup); ok {
+					if _, fld, _, ok := flow.FieldOf(lk.X); ok && strings.Contains(fld, "streamMap") {
+						looksUp = true
+					}
+				}
+				// the buffers may be kept by a type of their own whose methods do the lookup
+				if ci, ok := x.(ssa.CallInstruction); ok {
+					if hh := flow.StaticCallee(ci); hh != nil && c.P.IsLibrary(hh) {
+						scan(hh, d+1)
+					}
+				}
+			})
+		}
+		scan(g, 0)
 		if !looksUp {
 			good, why = false, "the delivery helper does not consult the stream's buffer: older buffered bytes of the stream are overtaken by fresh ones"
 		}
